@@ -90,7 +90,7 @@ def scenarios(tier):
         ("scan_dex", SRC_DEX, ("file", "c6f9709feccf42f2d9e22057182fe185f177fb9daaa2649b4669a24f2ee7e3ba_0h_410h"), "scan", 300 if not T else big),
         ("all_small", SRC_SMALL, DATA_TEXT, "init,compile,save,load,screate,scan", 10 ** 9),
     ]
-    return S + re_scenarios(tier) + base64_scenarios(tier) + growth_scenarios(tier)
+    return S + re_scenarios(tier) + base64_scenarios(tier) + growth_scenarios(tier) + history_scenarios(tier)
 
 
 # ------------------------------------------------------------------ regexp execution: every action path of yr_re_exec on a fresh scanner
@@ -215,6 +215,28 @@ def growth_scenarios(tier):
     return out
 
 
+# ------------------------------------------------------------------ API histories on external variables
+HIST_SRC = b'rule h { condition: ext_s contains "needle" } rule i { condition: ext_i == 7 or ext_b or ext_f > 2.0 }'
+HIST_COMPILE = "cnew cdefs:abc cdefi:ext_i:1 cdefb:ext_b:0 cdeff:ext_f cadd cget cdel "
+HIST_TAIL = " inj- rdefs:final_needle snew scan sdel"
+
+
+def history_scenarios(tier):
+    """Sequences of define calls on the same external at compiler, rules and scanner level, with save/load in between; the
+    injection window is the history itself; after a faulted call the history goes on (scanner create, scan, define again)."""
+    H = [
+        ("rules_twice", HIST_COMPILE + "inj+ rdefs:first_value_which_is_long rdefs:2nd snew scan sdel rdefs:third_has_needle snew scan sdel" + HIST_TAIL),
+        ("rules_thrice_then_scanner", HIST_COMPILE + "inj+ rdefs:a rdefs:bb_needle rdefs:ccc snew sdefs:s1 sdefs:s2_needle scan sdel" + HIST_TAIL),
+        ("scanner_twice", HIST_COMPILE + "inj+ snew sdefs:first_long_value_xxxxxxxx sdefs:2 scan sdefs:third_needle scan sdel" + HIST_TAIL),
+        ("compiler_twice", "inj+ cnew cdefs:abc cdefs:second_definition cdefi:ext_i:1 cdefi:ext_i:2 cdefb:ext_b:0 cdeff:ext_f cadd cget cdel" + HIST_TAIL),
+        ("save_load", HIST_COMPILE + "save inj+ rdefs:first_value_long rdefs:second load rdefs:on_loaded_1 rdefs:on_loaded_needle_2 snew scan sdel" + HIST_TAIL),
+        ("load_then_define", HIST_COMPILE + "save inj+ load rdefs:on_loaded_1 rdefs:needle_2 snew scan sdel rdefs:x3 rdefs:x4_needle snew scan sdel" + HIST_TAIL),
+        ("mixed_kinds", HIST_COMPILE + "inj+ rdefs:first rdefi:ext_s:5 rdefb:ext_s:1 rdeff:ext_s rdefi:ext_i:7 rdefb:ext_b:1 rdeff:ext_f rdefs@ext_i:str "
+                        "rdefs:again_needle snew sdefi:ext_s:3 sdefs@ext_i:x sdefs:scanner_needle scan sdel" + HIST_TAIL),
+    ]
+    return [("hist_" + n, HIST_SRC, b"zz", "hist:" + sc, 10 ** 9) for n, sc in H]
+
+
 def case_lines(sc, kfrom, kto, sticky, lsan_each=0):
     name, src, data, window, _ = sc
     lines = ["src " + hx(src), "file inc.yar " + hx(INC)]
@@ -222,6 +244,8 @@ def case_lines(sc, kfrom, kto, sticky, lsan_each=0):
         lines.append("datafile " + data_file(data[1]))
     else:
         lines.append("data " + hx(data))
+    if window.startswith("hist:"):
+        return lines + ["script " + window[5:], "hrun %d %d %d" % (kfrom, kto, sticky)]
     lines += ["window " + window, "run %d %d %d %d" % (kfrom, kto, sticky, lsan_each)]
     return lines
 
@@ -314,6 +338,38 @@ def foreign_leak(err):
     return False
 
 
+def compiler_reused_after_failed_define(sc, r, errs, k):
+    """For a history scenario: the injected failure made a compiler-level yr_compiler_define_*_variable return ERROR_INSUFFICIENT_MEMORY and
+    the history went on using that compiler.  The harness prints the op the failure fell into (third part of sig; for a crashed run it is
+    not printed: then the INJECT site decides)."""
+    if not sc[3].startswith("hist:"):
+        return None
+    ops = [o for o in sc[3][5:].split() if o not in ("inj+", "inj-")]
+    if isinstance(r, dict):
+        parts = r["sig"].split(";")
+        if len(parts) < 3 or parts[2] == "-":
+            return None
+        idx, name, rc = parts[2].split(":")
+        idx = int(idx)
+        if name.startswith("cdef") and rc == "1" and any(o.split(":")[0] in ("cadd", "cget", "cdefs", "cdefi", "cdefb", "cdeff") for o in ops[idx + 1:]):
+            return "fault-in-op=%d:%s rc=%s, the compiler is used again afterwards" % (idx, ops[idx], rc)
+        return None
+    # crashed: no result line; the harness wrote "HOP <index> <op>" to stderr before every op of the history
+    i = errs.find("BEGIN k=%d\n" % k)
+    if i < 0:
+        return None
+    j = errs.find("BEGIN k=", i + 8)
+    seg = errs[i:j if j > 0 else len(errs)]
+    inj = seg.find("INJECT k=%d " % k)
+    if inj < 0:
+        return None
+    before = re.findall(r"^HOP (\d+) (\S+)", seg[:inj], re.M)
+    after = re.findall(r"^HOP (\d+) (\S+)", seg[inj:], re.M)
+    if before and before[-1][1].startswith("cdef") and after:
+        return "fault-in-op=%s:%s, the run crashed later, in op %s:%s" % (before[-1][0], ops[int(before[-1][0])], after[-1][0], after[-1][1])
+    return None
+
+
 def judge(sc, base, r, sticky):
     """None if the outcome for one k is acceptable, else (kind, text)."""
     if isinstance(r, str):
@@ -326,6 +382,31 @@ def judge(sc, base, r, sticky):
     if r["follow"] != base["follow"]:
         return ("aftermath", "follow-up compile+scan in the same process gives %s, expected %s" % (r["follow"], base["follow"]))
     if r["fired"] == 0:
+        return None
+    if sc[3].startswith("hist:"):
+        ops = [o for o in sc[3][5:].split() if o not in ("inj+", "inj-")]
+        brc, bsig = base["sig"].split(";")[:2]
+        rrc, rsig = r["sig"].split(";")[:2]
+        bl, rl = [x for x in brc.split(",") if x], [x for x in rrc.split(",") if x]
+        if len(bl) != len(rl) or len(rl) != len(ops):
+            return ("wrong-rc", "history gave %d return codes for %d calls" % (len(rl), len(ops)))
+        lost = False      # an object could not be created: what depends on it is not applicable (-1)
+        for op, a, b in zip(ops, rl, bl):
+            if a == b:
+                continue
+            if a == "1" or (op == "cadd" and a != "0"):
+                lost = lost or op.split(":")[0] in ("cnew", "cadd", "cget", "load", "snew", "save", "cdefs", "cdefi", "cdefb", "cdeff")
+                continue
+            if a == "-1" and lost:
+                continue
+            if a == "0" and b == "56" and "1" in rl:
+                continue      # "duplicated external variable" turns into success when the first definition was the one that failed
+            return ("wrong-rc", "call %s returned %s (without failure: %s); history %s" % (op, a, b, rrc))
+        fin_b, fin_r = bsig.rstrip("|").split("|")[-1], rsig.rstrip("|").split("|")[-1]
+        if rl[-2] == "0" and fin_r != fin_b:
+            return ("wrong-result", "after the history the final define+scan gives %s, expected %s (%s)" % (fin_r, fin_b, rsig))
+        if rl[-2] not in ("0", "-1", "1"):
+            return ("wrong-rc", "final scan returned %s" % rl[-2])
         return None
     if r["phase"] == "-":
         # the failure was absorbed: the operation completed; it must have completed correctly
@@ -357,7 +438,8 @@ def explore(chk, h, tier, only=None):
     stats = {}
     tasks = []
     scs = [s for s in scenarios(tier) if not only or s[0] in only or ("re" in only and s[0].startswith("re_")) or
-           ("b64" in only and s[0].startswith("b64_")) or ("grow" in only and s[0].startswith("grow_"))]
+           ("b64" in only and s[0].startswith("b64_")) or ("grow" in only and s[0].startswith("grow_")) or
+           ("hist" in only and s[0].startswith("hist_"))]
     bases = {}
     # baselines (k = 0): allocation count and the expected scan result
     cases = [(s[0], case_lines(s, 0, 0, 0)) for s in scs]
@@ -371,7 +453,7 @@ def explore(chk, h, tier, only=None):
             # the data is meant to reach the construct: a baseline that does not match means the scenario no longer exercises it
             chk.violation("scenario:%s:baseline-nomatch" % s[0], "regexp scenario %s does not match its own data: %s" % (s[0], s[1][:200]),
                           {"scenario": s[0], "source": s[1].decode("latin-1"), "output": out.get(s[0])}, found_input=False)
-        if r is None or r["phase"] != "-" or r["live"] != 0 or r["live2"] != 0:
+        if r is None or r["phase"] not in ("-", "H") or r["live"] != 0 or r["live2"] != 0:
             chk.violation("scenario:%s:baseline" % s[0], "scenario %s does not run cleanly without any injected failure: %s" % (s[0], out.get(s[0])),
                           {"scenario": s[0], "output": out.get(s[0]), "stderr": err[-1500:]}, found_input=True)
             continue
@@ -451,6 +533,7 @@ def explore(chk, h, tier, only=None):
                 continue
             kind, text = v
             site = sites.get(k, "?")
+            reused = compiler_reused_after_failed_define(s, r, errs, k)
             detail = asan_summary(errs, k) if kind == "crash" else ""
             # stable key: what went wrong, where the failed allocation was requested (function < caller), and for a
             # crash the function it crashed in; the scenario and k are in the replay
@@ -459,6 +542,9 @@ def explore(chk, h, tier, only=None):
                 key += ":in-include"      # a failure while an included file is being parsed is a context of its own
             if kind == "crash":
                 key += ":at:" + (detail.split(" @ ")[-1].split(">")[0] or "?")
+            if reused:
+                key = "compiler-reused-after-failed-define"
+                text += " [%s]" % reused
             chk.violation(key, "C16 scenario %s, allocation #%d of %d fails%s (in %s): %s: %s %s" % (
                 s[0], k, base["count"], " and every later one" if sticky else "", site, kind, text, detail),
                 {"scenario": s[0], "k": k, "sticky": sticky, "site": site, "kind": kind, "result": r, "window": s[3],
